@@ -33,7 +33,12 @@ def main():
                        "-sim.replaydir", os.path.join(d, "replays"), "-sim.known", os.path.join(VERIF, "known_findings.json")]
                 procs.append(subprocess.Popen(cmd, cwd=SIM, stdout=subprocess.DEVNULL, stderr=subprocess.DEVNULL))
             for p in procs:
-                p.wait()
+                try:
+                    p.wait(timeout=1200)
+                except subprocess.TimeoutExpired:
+                    p.kill()
+                    bad += 1
+                    print("WATCHDOG %s seed %d: a self-test process exceeded 20 minutes and was killed" % (prop, seed))
             names = sorted(f for f in os.listdir(dirs[0]) if f.endswith(".log"))
             for n in names:
                 total += 1
